@@ -152,14 +152,20 @@ func Open(options Options) (*DB, error) {
 			for {
 				select {
 				case <-ticker.C:
-					if flushes == db.bytesWrite {
+					// bytesWrite 由写路径在 db.mu 下更新, 此处需加读锁读取
+					db.mu.RLock()
+					written := db.bytesWrite
+					db.mu.RUnlock()
+					if flushes == written {
 						continue
 					}
 					if err := db.Merge(); err != nil {
 						// 记录错误日志
 						fmt.Printf("failed to merge db: %v\n", err)
 					}
+					db.mu.RLock()
 					flushes = db.bytesWrite
+					db.mu.RUnlock()
 				case <-db.closedChan:
 					return
 				}
